@@ -32,11 +32,13 @@ EXPLANATION = ('Lean theorems about the symbol table and attribute-chain resolut
                'files on the real package tree + intended-target and config_str round-trip oracles on the real code.')
 
 PKG = 'c19pkg'
+PKGS = ('c19pkg', 'Zc19pkg')
 
 
 def world():
   """Introspects the real package tree: module paths, attributes, parameters; ids are stable by traversal order."""
   import c19pkg  # noqa  pylint: disable=import-error
+  import Zc19pkg  # noqa  pylint: disable=import-error
   ids, objs = {}, []
 
   def oid(o):
@@ -45,7 +47,7 @@ def world():
       objs.append(o)
     return ids[id(o)]
   modules, attrs, params = [], {}, {}
-  todo = [c19pkg]
+  todo = [c19pkg, Zc19pkg]
   seen = set()
   while todo:
     o = todo.pop(0)
@@ -54,14 +56,14 @@ def world():
     seen.add(id(o))
     i = oid(o)
     if isinstance(o, types.ModuleType):
-      if not o.__name__.startswith(PKG):
+      if not o.__name__.startswith(PKGS):
         continue
       modules.append([o.__name__.split('.'), i])
     names = {}
     for n, v in sorted(vars(o).items()):
       if n.startswith('_'):
         continue
-      if isinstance(v, types.ModuleType) and not v.__name__.startswith(PKG):
+      if isinstance(v, types.ModuleType) and not v.__name__.startswith(PKGS):
         continue
       if isinstance(v, (types.ModuleType, types.FunctionType, type)):
         names[n] = oid(v)
